@@ -275,14 +275,14 @@ func runC03(c *core.Ctx) {
 		c.Note("oracle self-check: reference encoder agrees with 8 third-party byte vectors")
 	}
 	o := gen.Opts{AllowKF: true}
-	c.Section("values", c.N(1200000, 16000000), func(cs *core.Case) {
+	c.Section("values", c.N(1200000, 48000000), func(cs *core.Case) {
 		c03Value(cs, valueOf(cs, o), "value")
 	})
 	// values whose encoding has 64 KiB or more (where 16-bit byte arithmetic wraps)
 	c.Section("big-values", c.N(400, 8000), func(cs *core.Case) {
 		c03Value(cs, gen.BigPacket(cs.R), "big")
 	})
-	c.Section("lists-as-compound", c.N(60000, 1000000), func(cs *core.Case) {
+	c.Section("lists-as-compound", c.N(60000, 3000000), func(cs *core.Case) {
 		c03Value(cs, gen.CompoundValue(cs.R, o), "compound")
 	})
 	// walking values: every leaf field × pattern, for every kind (deterministic, shard 0 of each index)
